@@ -214,6 +214,7 @@ def case_prec(T, cfg):
 CASES = dict(residuals=case_residuals, unbalanced=case_unbalanced, measurements=case_measurements, lists=case_lists,
              prec=case_prec)
 MAX_PATHS = dict(quick=200, thorough=400)
+CFG_BUDGET_S = dict(quick=150, thorough=240)
 
 
 def configs(tier):
@@ -234,8 +235,8 @@ def configs(tier):
             perms = [tuple(range(k)), tuple(range(k))[::-1]] + ([(1, 2, 0)] if k == 3 else [])
             for perm in (perms if not quick else perms[1:]):
                 for labkind in (['str'] if quick else ['int', 'str']):
-                    # shrinkage on datasets: residual rank 1 (rank 2 only shrinkage_diag, thorough; eye: z3 unknown)
-                    if shr and (len(pat) - k > (1 if (quick or method == 'shrinkage_eye') else 2) or len(pat) > 4):
+                    # shrinkage on datasets: residual rank 1 (rank 2: 100-250 s per configuration or z3 unknown -> outside)
+                    if shr and (len(pat) - k > 1 or len(pat) > 4):
                         continue
                     out.append(dict(case='unbalanced', method=method, pattern=pat, P=2, labkind=labkind, perm=perm,
                                     dof=None, container='array' if labkind == 'int' else 'list'))
